@@ -623,7 +623,28 @@ func runStore(c *StateCase, newState bool, roots []string) (tr trace) {
 			blk.Hash = &h
 			su.BlockHash = &h
 			z := felt.Zero
-			if err := bc.Store(blk, &core.BlockCommitments{TransactionCommitment: &z, EventCommitment: &z, ReceiptCommitment: &z, StateDiffCommitment: &z}, su, classes); err != nil {
+			comms := &core.BlockCommitments{TransactionCommitment: &z, EventCommitment: &z, ReceiptCommitment: &z, StateDiffCommitment: &z}
+			// the same block with a wrong new root must be rejected and leave the database as it is
+			{
+				before := dumpDB(disk)
+				old2 := prevRoot
+				su2, classes2 := toUpdate(b, &old2)
+				bad := felt.FromUint64[felt.Felt](0xbad0)
+				su2.NewRoot = &bad
+				blk2 := simBlock(uint64(n), b.Version)
+				p2 := parent
+				blk2.ParentHash = &p2
+				blk2.GlobalStateRoot = &bad
+				blk2.Hash = &h
+				su2.BlockHash = &h
+				if err := bc.Store(blk2, comms, su2, classes2); err == nil {
+					return fmt.Errorf("block %d: Blockchain.Store accepted a block whose new root is wrong", n)
+				}
+				if diff := diffDump(before, dumpDB(disk)); diff != "" && tr.Leak == "" {
+					tr.Leak = fmt.Sprintf("block %d: a rejected Blockchain.Store changed the database: %s", n, diff)
+				}
+			}
+			if err := bc.Store(blk, comms, su, classes); err != nil {
 				// (judged by the caller: the same block may be rejected by the state layer for its stored old root)
 				tr.OldRej = append(tr.OldRej, n)
 				tr.OldRejErr = err.Error()
@@ -798,10 +819,13 @@ func discardNew(disk *memory.Database, sdb *state.StateDB, prev *felt.Felt, num 
 			}
 			bad := felt.FromUint64[felt.Felt](0xdead)
 			su, classes := toUpdate(&d.Diff, &bad)
-			return st.Update(hdr, su, classes, true)
+			if err := st.Update(hdr, su, classes, true); err != nil {
+				return err
+			}
+			return errWrongOldRootAccepted // (do not write the batch)
 		})
-		if err == nil {
-			return "", fmt.Errorf("an update with a wrong OldRoot was accepted")
+		if err == errWrongOldRootAccepted {
+			return "", err
 		}
 		return "", nil
 	default: // close
@@ -823,6 +847,8 @@ func discardNew(disk *memory.Database, sdb *state.StateDB, prev *felt.Felt, num 
 		return feltHex(&root), err
 	}
 }
+
+var errWrongOldRootAccepted = fmt.Errorf("an update with a wrong OldRoot was accepted")
 
 func discardOld(disk *memory.Database, prev *felt.Felt, num uint64, d *Discarded) (string, error) {
 	hdr := &core.Header{Number: num, ProtocolVersion: d.Diff.Version}
@@ -856,10 +882,13 @@ func discardOld(disk *memory.Database, prev *felt.Felt, num uint64, d *Discarded
 			st := deprecatedstate.New(txn)
 			bad := felt.FromUint64[felt.Felt](0xdead)
 			su, classes := toUpdate(&d.Diff, &bad)
-			return st.Update(hdr, su, classes, true)
+			if err := st.Update(hdr, su, classes, true); err != nil {
+				return err
+			}
+			return errWrongOldRootAccepted
 		})
-		if err == nil {
-			return "", fmt.Errorf("an update with a wrong OldRoot was accepted")
+		if err == errWrongOldRootAccepted {
+			return "", err
 		}
 		return "", nil
 	default:
@@ -1416,8 +1445,23 @@ func checkStateCases(f lib.Flags, res *lib.Result, drv *lib.Driver, cases []*Sta
 				rejAtState[n] = true
 			}
 			switch {
+			case t.Leak != "":
+				sig := "blockchain-store-rejected-block-leaves-trace-in-database-" + name + "-state"
+				violateOnce(res, sig, func() lib.Violation {
+					return lib.Violation{Sig: sig, What: t.Leak,
+						Replay: rep(func(c *StateCase) bool {
+							r := runNewState(c)
+							if !nw {
+								r = runOldState(c)
+							}
+							return r.Err == "" && runStore(c, nw, r.Roots).Leak != ""
+						})}
+				})
 			case t.Err != "":
 				sig := "blockchain-store-fails-on-valid-block-" + name + "-state"
+				if strings.Contains(t.Err, "accepted a block whose new root is wrong") {
+					sig = "blockchain-store-accepts-wrong-new-root-" + name + "-state"
+				}
 				violateOnce(res, sig, func() lib.Violation {
 					return lib.Violation{Sig: sig, What: t.Err,
 						Replay: rep(func(c *StateCase) bool {
